@@ -444,7 +444,9 @@ def rule_r4(ctx):
                     continue
                 ctag, cattr, cobj, ftag, fobj = _guard_owner(lw)
                 bad = None
-                if ctag == "?" or ftag == "?":
+                if (lw.guard or {}).get("live") is False:
+                    bad = ("stale-counter", f"the counter getter passed for block {fld} returns a value of {ctag}.{cattr} captured before the call instead of reading it when polled: _iter_branch compares it before every statement, so an interrupt inside the block is never noticed")
+                elif ctag == "?" or ftag == "?":
                     bad = ("unresolved", f"cannot resolve the counter/flag getters of block {fld} ({lw.guard})")
                 elif (cobj is None) != (fobj is None) or (cobj is not None and cobj is not fobj):
                     bad = ("mixed-owner", f"counter belongs to {ctag} but the flag getter to {ftag}")
@@ -498,8 +500,9 @@ def rule_r4(ctx):
     return rr
 
 
-def iter_branch_paths(ctx):
-    """Abstract run of _iter_branch on a generic block of three statements."""
+def iter_branch_paths(ctx, first_kinds=None):
+    """Abstract run of _iter_branch on a generic block of three statements (or, with first_kinds,
+    on a block of two whose first statement may be compound: the pruning oracle)."""
     prog = ctx.prog
     pn = prog.modules.get("oneliner.pending_nodes")
     owners = [c for c in pn.classes.values() if "_iter_branch" in c.methods] if pn else []
@@ -516,7 +519,10 @@ def iter_branch_paths(ctx):
             it.no_summary.add(fi.node)
             self_obj = Obj(ci, "self")
             parent = UNode(["If"])
-            stmts = [UNode(["Expr", "Break", "Continue", "Return"], parent, "body", i) for i in range(3)]
+            if first_kinds:
+                stmts = [UNode(first_kinds, parent, "body", 0), UNode(["Expr"], parent, "body", 1)]
+            else:
+                stmts = [UNode(["Expr", "Break", "Continue", "Return"], parent, "body", i) for i in range(3)]
             branch = PList(list(stmts))
             dst = PList([])
             counter_owner = Obj(None, "owner")
@@ -536,6 +542,32 @@ def iter_branch_paths(ctx):
         return run_protected(it, pr, body)
 
     return [pr for _d, pr in enumerate_paths(run, None, what="_iter_branch")]
+
+
+_INTERRUPTS = frozenset(["Break", "Continue", "Return"])
+_PRUNE_KINDS = ["Expr", "Assign", "Break", "Continue", "Return", "If", "While", "For", "With"]
+
+
+def _never_completes(u, cut=(), depth=0):
+    """Oracle: with what the path has established about statement `u` (its refined kinds and those
+    of the children the code looked at), can control never reach the statement after it?  Loops do
+    not qualify: their else clause is skipped by `break`, and `with` may swallow an exception."""
+    if not isinstance(u, UNode) or u.is_none or depth > 6:
+        return False
+    if any(u is c for c in cut):
+        # the analyser cut the repository's own recursion here: induction hypothesis (the verdict
+        # for the sub-statement is right if the verdicts one level up are, which the other paths check)
+        return True
+    if u.kinds <= _INTERRUPTS:
+        return True
+    if u.kinds == frozenset(["If"]):
+        for f in ("body", "orelse"):
+            lst = u.fields.get(f)
+            last = getattr(lst, "_elems", {}).get(-1) if lst is not None else None
+            if last is None or not _never_completes(last, cut, depth + 1):
+                return False
+        return True
+    return False
 
 
 def rule_ib(ctx):
@@ -591,6 +623,22 @@ def rule_ib(ctx):
             rr.fail(f"C05-IB|_iter_branch|{bad[0]}", f"_PendingCompoundStmt._iter_branch: {bad[1]} [counter increases before each statement: {split}; statements kept: {n_keep}]", what=what)
         else:
             rr.ok(what, sample={"rule": "C05-IB", "counter_increases": split, "kept": n_keep, "guards": [len(e.guards) for e in seq]})
+    # pruning: the statements after X may be dropped only when X never completes normally
+    for pr in cached(ctx, "iter_branch_prune_paths", lambda: iter_branch_paths(ctx, _PRUNE_KINDS)):
+        if pr.outcome != "ok":
+            rr.fail("C05-IB|_iter_branch|abort", f"_iter_branch cannot be run abstractly on a block starting with a compound statement: {pr.raised} {pr.events[:2]}", what="run-prune")
+            continue
+        rr.instances += 1
+        stmts = pr.extra["stmts"]
+        evs, w = events_of(pr.result)
+        got = [e.node.src for e in evs if e.kind == "S"]
+        what = f"iter_branch|prune|{stmts[0].kind_label()}"
+        if not got or got[0] is not stmts[0] or len(got) > 2 or (len(got) == 2 and got[1] is not stmts[1]):
+            rr.fail("C05-IB|_iter_branch|order", f"_iter_branch on [{stmts[0].kind_label()}, Expr]: lowered statements are not the block in source order", what=what)
+        elif len(got) == 1 and not _never_completes(stmts[0], getattr(pr, 'rec_cut_args', ())):
+            rr.fail("C05-IB|_iter_branch|prune", f"_PendingCompoundStmt._iter_branch drops the statement after a `{stmts[0].kind_label()}` statement that may complete normally (a loop's else clause is skipped by `break`; only break/continue/return, or an if whose two branches both end in one, never fall through) [decisions: {short_ctx(pr, 200)}]", what=what)
+        else:
+            rr.ok(what)
     # the split condition is a strict comparison against a refreshed saved value
     fi = [c for c in ctx.prog.modules["oneliner.pending_nodes"].classes.values() if "_iter_branch" in c.methods][0].methods["_iter_branch"]
     rr.instances += 1
